@@ -530,8 +530,15 @@ def go_view(script, go):
        callers: caller -> result dict (final)
        reqs:   caller -> dict(typ,len,hash,api)"""
     frames, peer = [], []
-    for st, o in zip(script["steps"], go.get("obs") or []):
+    waits, cancelled_at, ending_at = [], {}, None
+    for idx, (st, o) in enumerate(zip(script["steps"], go.get("obs") or [])):
         op = st["op"]
+        if op == "wait_caller":
+            waits.append((idx, st["caller"], o))
+        elif op == "cancel":
+            cancelled_at.setdefault(st["caller"], idx)
+        elif op in ("close", "peer_close", "shutdown", "write_fail") and ending_at is None:
+            ending_at = idx
         if op in ("expect_frame", "expect_rest") and o.get("st") not in ("none", None, "no-header", "broken"):
             frames.append(o)
         elif op == "drain":
@@ -544,7 +551,7 @@ def go_view(script, go):
                 typ = T_KA if op == "keepalive" else st["typ"]
                 mid, pl = o.get("id", st.get("id", 0)), st.get("pl")
             pn, ph = pl_len_hash(pl)
-            peer.append(dict(typ=typ, id=mid, len=pn, hash=ph, op=op, st=o.get("st"), first=(op == "connect"),
+            peer.append(dict(idx=idx, typ=typ, id=mid, len=pn, hash=ph, op=op, st=o.get("st"), first=(op == "connect"),
                              cut=st.get("cut"), skip=st.get("skip"), to=(st.get("to") if op == "reply" else None)))
     reqs = {}
     for st in script["steps"]:
@@ -566,7 +573,7 @@ def go_view(script, go):
     for p in peer:
         if p.get("skip") is not None and merged and merged[-1].get("cut") == p["skip"] and \
                 (merged[-1]["typ"], merged[-1]["len"], merged[-1]["hash"], merged[-1].get("to")) == (p["typ"], p["len"], p["hash"], p.get("to")):
-            merged[-1] = dict(merged[-1], cut=None, skip=None, split=p["skip"], st=p.get("st"))
+            merged[-1] = dict(merged[-1], cut=None, skip=None, split=p["skip"], st=p.get("st"), idx=p.get("idx"))
         else:
             merged.append(p)
     peer = merged
@@ -578,7 +585,8 @@ def go_view(script, go):
             own = [c for c, r in reqs.items() if (r["typ"], r["len"], r["hash"]) == (f.get("typ"), f.get("len"), f.get("hash"))]
             if len(own) == 1:
                 p["answers"] = own[0]
-    return dict(frames=frames, peer=peer, callers=callers, reqs=reqs, first_seen=first_seen)
+    return dict(frames=frames, peer=peer, callers=callers, reqs=reqs, first_seen=first_seen,
+                waits=waits, cancelled_at=cancelled_at, ending_at=ending_at)
 
 
 def wire_id_of(view, c):
@@ -632,6 +640,27 @@ def pred_c03(view):
             key = (mine[0]["id"], mine[0]["typ"], mine[0]["hash"])
             n_sent = len(mine)
             used.setdefault(key, []).append((c, n_sent))
+    # the liveness half: a request whose reply the peer sent in full, whose caller was not cancelled and whose client was
+    # not being closed must have been delivered by the time the script looks at the caller (every step ends in quiescence)
+    for p in view["peer"]:
+        c = p.get("answers")
+        if c is None or p.get("st") not in ("ok", "blocked") or p.get("cut") is not None or p.get("skip") is not None:
+            continue
+        if p["typ"] in UNSOLICITED or p["len"] > MAX_BUFFERED or view["reqs"][c]["api"] in ("SendNoWait", "Shutdown"):
+            continue
+        end = view.get("ending_at")
+        cidx = (view.get("cancelled_at") or {}).get(c)
+        for widx, wc, o in view.get("waits") or []:
+            if wc != c or widx < p.get("idx", 1 << 30):
+                continue
+            if (end is not None and end < widx) or (cidx is not None and cidx < widx):
+                break
+            if o.get("res") == "blocked":
+                how = "the client consumed it" if p.get("st") == "ok" else "the client does not even read it: the read loop is stuck"
+                bad.append(("reply-not-delivered", "the peer sent the reply to caller %d's request in full (type %d, id %d, %d bytes; %s) "
+                            "and the caller was neither cancelled nor the client closed, yet SendMessage has not returned" % (
+                                c, p["typ"], p["id"], p["len"], how)))
+            break
     for key, lst in used.items():
         if len(lst) > lst[0][1]:
             bad.append(("reply-delivered-twice", "peer frame id=%d typ=%d delivered to callers %s" % (key[0], key[1], [c for c, _ in lst])))
@@ -707,6 +736,14 @@ def pred_c07(view, strict_pending=4):
                 if m[1] and not m[2]:
                     bad.append(("keepalive-not-acked", "keep-alive id %d (at most %d pending before it) was never acknowledged" % (m[0], strict_pending)))
             continue
+        if kind == "ack-shape":
+            bad.append(("ack-not-header-only", "KeepAliveAck id %d is not a header-only frame: length field %s, %s payload bytes "
+                        "(an acknowledgement is exactly the 10 header bytes, whatever the keep-alive carried)" % mid))
+            continue
+        if kind == "bad-frame":
+            bad.append(("outbound-frame-malformed", "the client's outbound stream is not a whole frame: %s (type %s, id %s, length "
+                        "field %s, got %s bytes)" % mid))
+            continue
         if kind == "idle":
             # the peer asked for the next frame, the client was quiescent and wrote nothing: every keep-alive that had to
             # be enqueued must have been acknowledged by now — acknowledging may not wait for anything else (replies to
@@ -756,12 +793,18 @@ def c07_order(script, go):
                 order.append(("ka-unread", st.get("id", 0)))
         elif op == "expect_frame" and o.get("st") == "ok" and o["typ"] == T_ACK:
             order.append(("ack", o["id"]))
+            if o.get("lenfield") != 10 or o.get("len", 0) != 0:
+                order.append(("ack-shape", (o["id"], o.get("lenfield"), o.get("len"))))
+        elif op == "expect_frame" and o.get("st") in ("short-payload", "short-header", "bad-lenfield"):
+            order.append(("bad-frame", (o.get("st"), o.get("typ"), o.get("id"), o.get("lenfield"), o.get("got"))))
         elif op == "expect_frame" and o.get("st") == "none":
             order.append(("idle", None))
         elif op == "drain":
             for f in o.get("frames") or []:
                 if f.get("st") == "ok" and f["typ"] == T_ACK:
                     order.append(("ack", f["id"]))
+                    if f.get("lenfield") != 10 or f.get("len", 0) != 0:
+                        order.append(("ack-shape", (f["id"], f.get("lenfield"), f.get("len"))))
             order.append(("drain", None))
     drained = any(st["op"] == "drain" for st in script["steps"][-3:])
     return order, drained
@@ -831,6 +874,9 @@ def judge_stress(tr):
         res["c03"].append(("stress-run", "stress run did not complete: %s" % (tr.get("error") or tr.get("st"))))
         return res
     trace, calls = tr.get("trace") or [], tr.get("calls") or []
+    if tr.get("stuck"):
+        res["c03"].append(("reply-not-delivered", "stress run: not every caller returned within the limit although the peer answers "
+                           "every request it reads (results: %s)" % sorted({c.get("res") for c in calls})))
     reads = [f for f in trace if f["dir"] == "r"]
     writes = [f for f in trace if f["dir"] == "w"]
     # C05: every request frame is one call's request, exactly once; ids distinct; length fields.
